@@ -4,7 +4,7 @@ CONSTANTS
   MaxChrom = 3
   MaxSites = 3
   MaxTotal2 = 3
-  SegChoices = {1, 2, 3}
+  SegChoices = {1, 3}
   SfsMaxList = 2
   SfsMaxTotal2 = 3
 SPECIFICATION Spec
